@@ -380,8 +380,48 @@ def rev_bool(node):
     return rev_truth(rev_int(node))
 
 
+# ---- fail closed (review B-4): the path-condition translation below only looks at the IfStmts that enclose a
+# target; anything else in the function that can change which targets run -- an early return, a jump, a loop, a
+# store to revents_/events_ (or any member other than the ones named), a call of another member function on
+# `this` -- is REFUSED: the fact is not emitted and the generator prints FALLBACK, which breaks the obligation.
+JUMP_KINDS = ("ReturnStmt", "GotoStmt", "IndirectGotoStmt", "BreakStmt", "ContinueStmt", "WhileStmt", "ForStmt", "DoStmt",
+              "CXXForRangeStmt", "SwitchStmt", "CXXThrowExpr", "CXXTryStmt", "LabelStmt", "GCCAsmStmt", "LambdaExpr",
+              "CoreturnStmt", "CoawaitExpr")
+ASSIGN_OPS = ("=", "+=", "-=", "*=", "/=", "%=", "&=", "|=", "^=", "<<=", ">>=")
+
+
+class Refused(Exception):
+    pass
+
+
+def refuse_unknown(body, where, stores_ok=(), this_calls_ok=()):
+    for n in cxxast.walk(body):
+        k = n.get("kind")
+        if k in JUMP_KINDS:
+            raise Refused("%s: a %s (the translation does not model control flow other than if/else)" % (where, k))
+        if k in ("BinaryOperator", "CompoundAssignOperator") and n.get("opcode") in ASSIGN_OPS:
+            lhs = cxxast.strip(kids(n)[0])
+            if lhs.get("kind") != "DeclRefExpr" and not (lhs.get("kind") == "MemberExpr" and lhs.get("name") in stores_ok):
+                raise Refused("%s: a store to %s (%s)" % (where, lhs.get("name") or lhs.get("kind"), n.get("opcode")))
+            if lhs.get("kind") == "DeclRefExpr" and lhs.get("referencedDecl", {}).get("kind") not in ("VarDecl",):
+                raise Refused("%s: a store to %s" % (where, lhs.get("referencedDecl", {}).get("name")))
+        if k == "UnaryOperator" and n.get("opcode") in ("++", "--"):
+            x = cxxast.strip(kids(n)[0])
+            if x.get("kind") != "DeclRefExpr":
+                raise Refused("%s: %s on %s" % (where, n.get("opcode"), x.get("name") or x.get("kind")))
+        if k == "CXXMemberCallExpr":
+            callee = cxxast.strip(kids(n)[0]) if kids(n) else {}
+            if callee.get("kind") == "MemberExpr":
+                obj = kids(callee)[0] if kids(callee) else {}
+                while obj.get("kind") in ("ImplicitCastExpr", "ParenExpr") and kids(obj):
+                    obj = kids(obj)[0]
+                if obj.get("kind") == "CXXThisExpr" and callee.get("name") not in this_calls_ok:
+                    raise Refused("%s: a call of the member function %s on this object" % (where, callee.get("name")))
+
+
 def dispatch_calls():
     fn = cxxast.function_decl("muduo/net/Channel.cc", "Channel::handleEventWithGuard")
+    refuse_unknown(cxxast.body(fn), "Channel::handleEventWithGuard", stores_ok=("eventHandling_",), this_calls_ok=("reventsToString",))
     rows = []
     for node, path in paths_to(cxxast.body(fn), lambda n: callback_member(n) is not None):
         name = callback_member(node)
@@ -417,6 +457,7 @@ def tie_bool(node):
 
 def tie_guard():
     fn = cxxast.function_decl("muduo/net/Channel.cc", "Channel::handleEvent")
+    refuse_unknown(cxxast.body(fn), "Channel::handleEvent", stores_ok=(), this_calls_ok=("handleEventWithGuard",))
 
     def is_call(n):
         if n.get("kind") != "CXXMemberCallExpr":
@@ -801,6 +842,9 @@ def main():
         out.append("   conjunction of the if-conditions on its path; 0 = closeCallback_, 1 = errorCallback_, 2 = readCallback_, 3 = writeCallback_ *)")
         out.append("Definition Channel_handleEventWithGuard_calls (revents : N) : list N :=\n  (" +
                    ") ++\n  (".join("if %s then [%d%%N] else []" % (cond, code) for _, code, cond in rows) + ").")
+    except Refused as e:
+        print("FALLBACK Channel_handleEventWithGuard_calls: %s" % e)
+        out.append("(* FALLBACK Channel_handleEventWithGuard_calls not emitted: %s *)" % cmt(str(e)))
     except Exception as e:  # noqa
         print("MISSING Channel_handleEventWithGuard_calls (%s)" % e)
         out.append("(* MISSING Channel_handleEventWithGuard_calls: %s *)" % cmt(str(e)))
@@ -809,6 +853,9 @@ def main():
         out.append("(* muduo/net/Channel.cc handleEvent: handleEventWithGuard is called iff .. ; guard = tie_.lock() *)")
         out.append("Definition Channel_handleEvent_runs (tied guard : bool) : bool :=\n  %s." % runs)
         out.append("Definition Channel_handleEvent_guard_is_tie_lock : bool := %s." % ("true" if from_lock else "false"))
+    except Refused as e:
+        print("FALLBACK Channel_handleEvent_runs: %s" % e)
+        out.append("(* FALLBACK Channel_handleEvent_runs not emitted: %s *)" % cmt(str(e)))
     except Exception as e:  # noqa
         print("MISSING Channel_handleEvent_runs (%s)" % e)
         out.append("(* MISSING Channel_handleEvent_runs: %s *)" % cmt(str(e)))
